@@ -422,6 +422,24 @@ def Reader.new (bytes : List UInt8) : Outcome Reader :=
                       | .err e => .err e
                       | .panic s => .panic s
 
+/-! ## `datafile/src/file.rs`: the file-backed reader -/
+
+/-- `file::Reader::new_impl(file, check_initial_offset)` with the file positioned at byte `start`
+(`Reader::open` is `start = 0`).  The sequential reads of `raw::Reader::new` see the file from
+`start` on; `ensure_filesize` compares `metadata().len().checked_sub(datafile_start).unwrap()`
+(a panic site) with the expected size; `set_seek_base` records the number of bytes read so far,
+and `seek_read(offset)` later reads at the absolute file position
+`datafile_start + seek_base + offset` (after the repair of `new_impl`, which used to leave out
+`datafile_start`). -/
+def fileOpen (file : List UInt8) (start : Nat) : Outcome Reader :=
+  match Reader.new (file.drop start) with
+  | .ok r =>
+    if file.length < start then .panic "ensure_filesize: checked_sub(datafile_start).unwrap()"
+    else
+      let seekBase := (file.drop start).length - r.dataRegion.length
+      .ok { r with dataRegion := file.drop (start + seekBase) }
+  | o => o
+
 /-! ## Accessors -/
 
 structure ItemView where
